@@ -411,6 +411,20 @@ def c10(params, rnd):
         got = repeated_decode(cd, mf + tail_bytes[:len(tail[0]) * 3], "malformed frame + traffic", viol)
         if tail[2] not in got:
             record(viol, "valid frames behind a malformed frame are not decoded", "malformed frame + traffic", mf, ["followers_not_blocked"])
+    # 2b. every byte value at every `byte_step`-th position (single decode): a corruption that some decoding step maps
+    #     back onto the original sum / text (another code page, case folding, ...) must not get through
+    bstep = params.get("byte_step", 3)
+    for f in frames:
+        for pos in range(0, len(f), bstep):
+            for nb in range(256):
+                if nb == f[pos]:
+                    continue
+                n += 1
+                mut = f[:pos] + bytes([nb]) + f[pos + 1:]
+                res = check_decode(cd, mut, "substitute byte %d (%#x -> %#x)" % (pos, f[pos], nb), viol, intact=f, may_return=False)
+                if res is not None and res[0] is not None:
+                    record(viol, "a corrupted frame is returned as a message", "substitute byte %d (%#x -> %#x)" % (pos, f[pos], nb), mut,
+                           ["corrupted_frame_accepted"])
     # 3. every single-byte corruption of every corpus frame
     step = params.get("position_step", 1)
     live_every = params.get("live_every", 7)
